@@ -760,6 +760,11 @@ pub struct C05Node {
     /// one-way outages: (from node, to node, start second, length in seconds) - everything in that direction is lost
     #[serde(default)]
     pub outages: Vec<(u8, u8, u16, u16)>,
+    /// total blackout: from second 100 on NOTHING is delivered between any two nodes for this many seconds (0 = none,
+    /// at most 5000: up to there the documented reconnect schedule - interval doubling every 10 tries - keeps the
+    /// gaps between dial attempts of a configured peer below the recovery bound)
+    #[serde(default)]
+    pub blackout: u16,
 }
 
 pub fn c05_node_case(ctx: &Ctx, c: &C05Node) -> Vec<Viol> {
@@ -788,9 +793,14 @@ pub fn c05_node_case(ctx: &Ctx, c: &C05Node) -> Vec<Viol> {
         .map(|(a, b, s, l)| (addrs[*a as usize % n], addrs[*b as usize % n], crate::sim::T0 + (*s % 200) as i64, crate::sim::T0 + (*s % 200) as i64 + (*l % 200) as i64))
         .collect();
     let has_outage = !outages.is_empty();
+    let blackout = (c.blackout.min(5000)) as i64;
     sim.policy = Some(Box::new(move |d| {
         if !act2.get() {
             return vec![0];
+        }
+        if blackout > 0 && d.sent_at >= crate::sim::T0 + 100 && d.sent_at < crate::sim::T0 + 100 + blackout {
+            f2.set(f2.get() + 1);
+            return vec![];
         }
         if outages.iter().any(|(a, b, s, e)| d.src == *a && d.dst == *b && d.sent_at >= *s && d.sent_at < *e) {
             f2.set(f2.get() + 1);
@@ -838,7 +848,7 @@ pub fn c05_node_case(ctx: &Ctx, c: &C05Node) -> Vec<Viol> {
     }
     sim.settle();
     // the adversarial phase lasts until the last outage window is over
-    let adv = if has_outage { 400 } else { (c.adversarial_seconds % 200) as i64 };
+    let adv = if blackout > 0 { 100 + blackout } else if has_outage { 400 } else { (c.adversarial_seconds % 200) as i64 };
     sim.run(adv);
     // reliable phase: the recovery bound counts from the moment the last delayed datagram has been delivered
     active.set(false);
@@ -885,7 +895,11 @@ pub fn c05_node_case(ctx: &Ctx, c: &C05Node) -> Vec<Viol> {
     if faults.get() > 0 {
         ctx.nontrivial(&format!("{:?}", c));
     }
-    ctx.class(&format!("adversarial:faults>={}", (faults.get() / 10) * 10));
+    if blackout > 0 {
+        ctx.class(&format!("adversarial:blackout>={}s", (blackout / 1000) * 1000));
+    } else {
+        ctx.class(&format!("adversarial:faults>={}", (faults.get() / 10) * 10));
+    }
     out
 }
 
@@ -904,7 +918,7 @@ pub fn c05_node(ctx: &Ctx) {
             )
         },
         |(nodes, fates, secs, edges, outages)| {
-            let c = C05Node { nodes: *nodes, fates: fates.clone(), adversarial_seconds: *secs, edges: *edges, outages: outages.clone() };
+            let c = C05Node { nodes: *nodes, fates: fates.clone(), adversarial_seconds: *secs, edges: *edges, outages: outages.clone(), blackout: 0 };
             let v = c05_node_case(ctx, &c);
             if fates.len() < 8 {
                 ctx.sample("adversarial-network", || serde_json::to_value(&c).unwrap());
@@ -918,7 +932,7 @@ pub fn c05_node(ctx: &Ctx) {
     for (a, b) in [(0u8, 1u8), (1, 0)] {
         for start in [0u16, 1, 2, 5] {
             for len in [60u16, 119, 125, 180] {
-                directed.push(C05Node { nodes: 2, fates: vec![0], adversarial_seconds: 0, edges: [0, 0, 0], outages: vec![(a, b, start, len)] });
+                directed.push(C05Node { nodes: 2, fates: vec![0], adversarial_seconds: 0, edges: [0, 0, 0], outages: vec![(a, b, start, len)], blackout: 0 });
             }
         }
     }
@@ -928,6 +942,23 @@ pub fn c05_node(ctx: &Ctx) {
         ctx.report(v);
     });
     ctx.subspace("node level: one-way outage during the handshake (both directions x 4 start offsets x lengths 60/119/125/180 s), then reliable", nd, true);
+    // total blackouts of minutes to hours between established, configured peers: peers time out, handshakes give up,
+    // only the reconnect schedule of configured peers keeps dialling; when the network returns the pairs must be back
+    // within the same bound (2 and 3 nodes, configuration on one side or on both)
+    let mut black = vec![];
+    for nodes in [2u8, 3] {
+        for edges in [[0u8, 0, 0], [0b010, 0b001, 0], [0b110, 0b101, 0b011]] {
+            for blackout in ctx.tier.pick(vec![330u16, 450, 700, 1000, 1400, 1700, 2500, 3500, 5000], vec![301u16, 330, 400, 450, 560, 700, 850, 1000, 1200, 1400, 1700, 2100, 2500, 3000, 3500, 4200, 5000]) {
+                black.push(C05Node { nodes, fates: vec![0], adversarial_seconds: 0, edges, outages: vec![], blackout });
+            }
+        }
+    }
+    let nb = black.len() as u64;
+    ctx.par_items(&black, |_, c| {
+        let v = c05_node_case(ctx, c);
+        ctx.report(v);
+    });
+    ctx.subspace("node level: total blackout of 5 min to 83 min between established configured peers (2-3 nodes, one- / two-sided configuration), then reliable", nb, true);
 }
 
 // =====================================================================================
